@@ -1,9 +1,12 @@
 #!/bin/sh
-# Offline build of the framework pieces that do not depend on /repo's working tree being final:
-# (every check rebuilds its Rust parts against /repo itself; this only warms the target dirs).
-set -e
+# Offline warm-up of the engine crates (every check rebuilds its Rust parts against /repo's working tree
+# itself; this only fills the target directories so that the first check is not slowed by cold builds).
 cd "$(dirname "$0")"
 export CARGO_NET_OFFLINE=true
 mkdir -p build evidence/replays
-( cd engines/extract && CARGO_TARGET_DIR=../../build/extract cargo build --offline --bin cx ) 2>&1 | tail -3
+for c in extract symfield auto mirreplay; do
+  if [ -d engines/$c ]; then
+    ( cd engines/$c && CARGO_TARGET_DIR=../../build/$c cargo build --offline 2>&1 | tail -2 ) || echo "warm-up of $c failed (the checks will report it)"
+  fi
+done
 echo setup done
